@@ -119,6 +119,20 @@ func (k *Keeper) OnChanOpenAck(
 		return err
 	}
 
+	// NOTE: a handshake may have been started before another channel became active for this owner (OnChanOpenInit had
+	// nothing to compare with then). If it now replaces that channel, it must keep the ordering and metadata like any reopening.
+	if previousChannelID, found := k.GetActiveChannelID(ctx, metadata.ControllerConnectionId, portID); found && previousChannelID != channelID {
+		if previousChannel, found := k.channelKeeper.GetChannel(ctx, portID, previousChannelID); found {
+			if previousChannel.Ordering != channel.Ordering {
+				return errorsmod.Wrapf(channeltypes.ErrInvalidChannelOrdering, "order cannot change when reopening a channel expected %s, got %s", previousChannel.Ordering, channel.Ordering)
+			}
+
+			if previousVersion, found := k.GetAppVersion(ctx, portID, previousChannelID); found && !icatypes.IsPreviousMetadataEqual(previousVersion, metadata) {
+				return errorsmod.Wrap(icatypes.ErrInvalidVersion, "previous active channel metadata does not match provided version")
+			}
+		}
+	}
+
 	if strings.TrimSpace(metadata.Address) == "" {
 		return errorsmod.Wrap(icatypes.ErrInvalidAccountAddress, "interchain account address cannot be empty")
 	}
